@@ -585,6 +585,13 @@ pub fn pool_runs(outp: &str, thorough: bool, seed: u64) {
             }
         }
     }
+    // a ratio above one (the temperature drops to zero after the first loop), run again and again
+    // in one process
+    if let Ok(st) = PackedState::from_group(MolecularShape2::circle(), &group("p2")) {
+        id += 1;
+        let quench: Vec<&str> = vec!["--steps", "60", "--inner-steps", "20", "--kt-start", "0.1", "--kt-ratio", "1.5", "--max-step-size", "0.05"];
+        one_config(&mut out, id, "p2 circle, kt_ratio 1.5", st, &quench, reps, &threads);
+    }
     // short hot runs: final LJ scores of both signs
     let hot: Vec<&str> = vec!["--steps", "10", "--inner-steps", "10", "--kt-start", "100", "--kt-ratio", "0", "--max-step-size", "0.1"];
     if let Ok(st) = PotentialState::from_group(LJShape2::circle(), &group("p1")) {
